@@ -106,6 +106,9 @@ def build(targets=None, timeout=1500):
         return rc == 0, out, failed, errs
 
 
+REQ_RE = re.compile(r"From MM Require (?:Import |Export )?((?:[A-Za-z0-9_]+(?:\.[A-Za-z0-9_]+)*\s+)*[A-Za-z0-9_]+(?:\.[A-Za-z0-9_]+)*)\.(?=\s|$)")
+
+
 def deps_of(vfile, seen=None):
     """Transitive closure of `From MM Require ... X.Y` over theories/ (textual)."""
     seen = seen if seen is not None else set()
@@ -116,7 +119,7 @@ def deps_of(vfile, seen=None):
         src = open(os.path.join(THEORIES, vfile)).read()
     except FileNotFoundError:
         return seen
-    for m in re.finditer(r"From MM Require (?:Import |Export )?([^.]*(?:\.[A-Za-z0-9_]+)*)\.", src):
+    for m in REQ_RE.finditer(src):
         for mod in m.group(1).split():
             deps_of(mod.replace(".", "/") + ".v", seen)
     return seen
@@ -147,9 +150,22 @@ def audit_sources():
     return bad
 
 
-def check_proofs(ctx: Ctx, props_file, extra_targets=()):
-    """Step 1 of every check.  Sets ctx.proof = dict(ok, theorems, axioms, failed, errors, obligations)."""
+def header_modules(header):
+    mods = []
+    for m in REQ_RE.finditer(header):
+        for mod in m.group(1).split():
+            mods.append(mod.replace(".", "/"))
+    return mods
+
+
+def check_proofs(ctx: Ctx, props_file, extra_targets=(), headers=()):
+    """Step 1 of every check.  Sets ctx.proof = dict(ok, theorems, axioms, failed, errors, obligations).
+    `headers`: the Coq headers of the case files of this check; the modules they import are built too."""
     targets = [props_file] + list(extra_targets)
+    for h in headers:
+        for m in header_modules(h):
+            if m not in targets:
+                targets.append(m)
     ok, log, failed, errs = build(targets)
     vrel = props_file + ".v"
     cone = deps_of(vrel)
